@@ -120,6 +120,29 @@ pub fn run(ctx: &mut Ctx) {
             }
         }
     }
+    // cat of strings whose lengths straddle small-string / buffer thresholds, mixed with other kinds
+    if release {
+        let lens = [0usize, 1, 7, 8, 14, 15, 16, 22, 23, 24, 31, 32, 33, 63, 64, 65];
+        for &a in &lens {
+            if !ctx.mine() {
+                continue;
+            }
+            for &b in &lens {
+                ctx.edge();
+                let sa: String = (0..a).map(|i| ['x', 'é', '水'][i % 3]).collect();
+                let sb: String = (0..b).map(|i| ['y', '😀'][i % 2]).collect();
+                let r = json!({"cat": [sa, 1.5, sb, null, [sa, [sb]], sb]});
+                let o = ctx.check("cat:string-lengths", &r, &null);
+                ctx.check("cat:string-lengths:V", &json!({"cat": [{"var": "a"}, {"var": "b"}, {"var": "a"}]}), &json!({"a": sa, "b": sb}));
+                if let Some(Value::String(w)) = o.ok() {
+                    let o2 = ctx.exec(&json!({"cat": [{"cat": [sa, 1.5]}, {"cat": [sb, null, [sa, [sb]], sb]}]}), &null);
+                    if o2.ok() != Some(&Value::String(w.clone())) {
+                        ctx.law_fail("law:cat-split", &r, &null, format!("{} chars", w.chars().count()), o2.show());
+                    }
+                }
+            }
+        }
+    }
     // substr
     let ss = strings(ctx.tier_thorough);
     let is = ints(ctx.tier_thorough);
